@@ -11,7 +11,7 @@ from ..lib import load
 from . import common as C
 
 ID = "C06"
-BUDGET = {"quick": 12000, "thorough": 320000}
+BUDGET = {"quick": 18000, "thorough": 320000}
 SOFT = {"quick": 60, "thorough": 560}
 HASH_ADMISSION = True
 RULE = ("segments, convex polygons (3-8 vertices) and closed convex polyhedra (4-10 vertices, 3-6 sided faces) with lattice "
@@ -93,9 +93,9 @@ def cases(rng, budget, widx, nworkers, tier):
             yield c_
         else:
             d = gen.rand_polyhedron(rng, small=rng.random() < 0.3)
-            if rng.random() < 0.14:
+            if rng.random() < 0.3:
                 d = gen.slab_body(rng, wide=rng.random() < 0.3)[1]       # parallel faces at a coordinate -1 and -2 (hash alike)
-                if rng.random() < 0.5:
+                if rng.random() < 0.7:
                     # ... or a pair of bodies / polygons differing in one coordinate -1 against -2: the first is measured first
                     kk = rng.choice(("PG", "PH"))
                     t1, t2 = gen.slab_twins(rng, kk)
